@@ -1,15 +1,141 @@
-"""C03  Simplification passes preserve the function, the interface and their argument
+"""C03  Simplification passes preserve the function, the interface and their argument.
 
-P: (deductive obligations for this property are added in vlib/props/C03.py as they are built)
-B: vlib/bounded/C03.py (bounded stand-in; never counted as proved)."""
+P: MergeDuplicateGates._build_signature (the nested function, extracted mechanically from the AST): equal
+   signatures imply equal gate type and an operand list on which OP(type) takes the same value — for every
+   gate type, arities <= 3 and every aliasing of operand labels (this is what makes merging two gates sound);
+   MergeUnaryOperators' operand getter reads exactly the operand OP depends on.
+B: all passes, pipelines and cleanup on enumerated / random circuits (vlib/bounded/C03.py)."""
+import itertools
+import z3
+
 from .. import env
-from .common import STD_TRUSTED, STD_ASSUME, run_bounded
+from ..pyvc.values import Sym, LabelSort, Obj, VList, Unsupported
+from ..pyvc.prove import Prover, Contract
+from ..pyvc import theory
+from ..spec import ops as S
+from .common import new_interp, finish_refuted, canary, STD_TRUSTED, STD_ASSUME, run_bounded
 
-LEVEL = 'exploration'
+LEVEL = 'other'
+MDG = 'cirbo/minimization/simplification/merge_duplicate_gates.py'
+MUO = 'cirbo/minimization/simplification/merge_unary_operators.py'
+
+
+def arities(t):
+    if t in S.NARY:
+        return [2, 3]
+    if t in S.BINARY:
+        return [2]
+    if t in S.UNARY:
+        return [1]
+    return [0, 2]
+
+
+class Signature(Contract):
+    """sig(t, a) == sig(t2, b)  ==>  t == t2 and OP(t)(V a) == OP(t)(V b);   and the converse normal-form direction:
+    same type and same operands (up to order for symmetric types) ==> equal signatures."""
+    relpath, qualname = MDG, 'MergeDuplicateGates._transform'
+
+    mode = 'sound'          # 'sound' (C03: merging is function preserving) | 'normal-form' (C18: duplicates get equal signatures)
+
+    def __init__(self, t, k1, k2, t2=None):
+        self.t, self.k1, self.k2, self.t2 = t, k1, k2, t2 or t
+        self.name = f'_build_signature/{t}{k1}-vs-{self.t2}{k2}'
+
+    def setup(self, it, ctx):
+        a = [z3.Const(f'a{i}', LabelSort) for i in range(self.k1)]
+        b = [z3.Const(f'b{i}', LabelSort) for i in range(self.k2)]
+        gm = it.load_module('cirbo.core.circuit.gate')
+        return [], {}, {'a': a, 'b': b, 'T1': gm.env[self.t], 'T2': gm.env[self.t2]}
+
+    def execute(self, it, fv, args, kwargs):
+        st = self._st
+        f = it.get_nested_function(MDG, 'MergeDuplicateGates._transform', '_build_signature')
+        s1 = it.call_function(f, [st['T1'], tuple(Sym(x) for x in st['a'])], {}, force_inline=True)
+        s2 = it.call_function(f, [st['T2'], tuple(Sym(x) for x in st['b'])], {}, force_inline=True)
+        return (s1, s2)
+
+    def post(self, it, ctx, result, st):
+        s1, s2 = result
+        e = it.eq(s1, s2)
+        e = z3.BoolVal(e) if isinstance(e, bool) else e
+        V = z3.Function('V', LabelSort, z3.BoolSort())
+        a, b = st['a'], st['b']
+        if self.t != self.t2:
+            if self.mode == 'sound':
+                yield ('different-types-differ', z3.Not(e))
+            return
+        va = theory.OPz(self.t, [V(x) for x in a]) if S.arity_ok(self.t, len(a)) and (len(a) or self.t in S.CONST) else None
+        vb = theory.OPz(self.t, [V(x) for x in b]) if S.arity_ok(self.t, len(b)) and (len(b) or self.t in S.CONST) else None
+        if va is not None and vb is not None and self.mode == 'sound':
+            yield ('equal-signature-implies-equal-value', z3.Implies(e, va == vb), {'witness': 'repeated-operands' if self.t in S.NARY else 'signature'})
+        if len(a) == len(b) and self.mode == 'normal-form':
+            same = z3.And([x == y for x, y in zip(a, b)]) if a else z3.BoolVal(True)
+            yield ('same-operands-imply-equal-signature', z3.Implies(same, e))
+            if S.SYMMETRIC[self.t] and len(a) >= 2:
+                perms = [z3.And([a[i] == b[p[i]] for i in range(len(a))]) for p in itertools.permutations(range(len(a)))]
+                yield ('permuted-operands-imply-equal-signature', z3.Implies(z3.Or(perms), e), {'witness': 'operand-order'})
+
+
+class _SigRunner(Signature):
+    def setup(self, it, ctx):
+        args, kw, st = Signature.setup(self, it, ctx)
+        self._st = st
+        return args, kw, st
+
+
+def getter_obligations(rep, pv, it):
+    m = it.load_module('cirbo.minimization.simplification.merge_unary_operators')
+    tbl = m.env['_unary_to_operand_getter']
+    p, q = z3.Bools('p q')
+    names = []
+    for k, getter in tbl.d.items():
+        t = k.fields['_name']
+        names.append(t)
+        ops = (Sym(p),) if t in S.UNARY else (Sym(p), Sym(q))
+        from ..pyvc.interp import Ctx
+        it.ctx = Ctx([])
+        picked = it.call(getter, [ops], {})
+        neg = t in ('NOT', 'LNOT', 'RNOT')
+        want = theory.OPz(t, [p] if t in S.UNARY else [p, q])
+        pv.add_raw(f'C03/_unary_to_operand_getter/{t}/reads-the-operand-OP-depends-on', '_unary_to_operand_getter', [],
+                   want == (z3.Not(picked.t) if neg else picked.t), meta={'witness': 'getter'})
+    pv.add_raw('C03/_unary_to_operand_getter/keys-are-the-unary-like-types', '_unary_to_operand_getter', [],
+               z3.BoolVal(sorted(names) == sorted(['NOT', 'LNOT', 'RNOT', 'IFF', 'LIFF', 'RIFF'])))
+
+
+def signature_contracts(mode='sound'):
+    cs = []
+    for t in S.GATE_TYPES:
+        if t == 'INPUT':
+            continue
+        ar = arities(t)
+        for k1 in ar:
+            for k2 in ar:
+                if k1 <= k2 and (mode == 'sound' or k1 == k2):
+                    cs.append(_SigRunner(t, k1, k2))
+    for t, t2 in (('AND', 'OR'), ('XOR', 'NXOR'), ('GT', 'LT'), ('NOT', 'IFF'), ('LIFF', 'RIFF')):
+        k = arities(t)[0]
+        if mode == 'sound':
+            cs.append(_SigRunner(t, k, k, t2))
+    for c in cs:
+        c.mode = mode
+    return cs
 
 
 def run(rep):
     quick = env.TIER != 'thorough'
-    rep.trusted_base = list(STD_TRUSTED)
+    rep.trusted_base = list(STD_TRUSTED) + ['axiom of sorted(): ascending permutation w.r.t. a total order on labels (differentially tested)']
+    for a in STD_ASSUME:
+        rep.assume(a)
+    rep.assume('the traversal-driven rebuilds of the five passes (_transform bodies, Circuit.dfs hooks), pipelines and cleanup are covered by the bounded stand-in only')
+    it = new_interp()
+    pv = Prover(rep, it, 'C03')
+    for c in signature_contracts():
+        pv.run_contract(c)
+    getter_obligations(rep, pv, it)
+    a, b = z3.Bools('a b')
+    canary(rep, pv, 'C03/canary/xor-ignores-multiplicity', [], z3.Xor(z3.Xor(a, a), b) == z3.Xor(a, b))
+    refuted = pv.discharge(env.NPROC)
+    finish_refuted(rep, pv, refuted)
     run_bounded(rep, 'C03', quick)
-    rep.extra['explanation'] = 'bounded stand-in only in this build'
+    rep.extra['explanation'] = 'signature soundness of MergeDuplicateGates and the operand getter of MergeUnaryOperators proved from the real source; passes as a whole: bounded stand-in.'
